@@ -463,9 +463,13 @@ struct Cli : ICli
 
   Owned& owned;
   std::shared_ptr<client_type> cl;
+  unsigned long period = 0;   // period=<ms>: reconnection period given to connect()
+  bool ondisc_close = false;  // ondisc=close: the disconnected handler calls close()
 
-  Cli(ASIO::io_context& io, Owned& o) : owned(o)
+  Cli(ASIO::io_context& io, Owned& o, const Words& w) : owned(o)
   {
+    period = std::stoul(vh::arg(w, "period", "0"));
+    ondisc_close = vh::arg(w, "ondisc", "") == "close";
     cl = client_type::create(io,
       [](resp_type const& r, C const& body)
       {
@@ -480,11 +484,16 @@ struct Cli : ICli
       { line("cl chunk " + chunk_fields(chunk, data)); });
     cl->invalid_response_event([](resp_type const&, C const&) { line("cl invalid"); });
     cl->connected_event([]() { line("cl connected"); });
-    cl->disconnected_event([]() { line("cl disconnected"); });
+    cl->disconnected_event([this]()
+    {
+      line("cl disconnected");
+      if (ondisc_close && cl)
+        cl->close();
+    });
     cl->message_sent_event([]() { line("cl sent"); });
   }
 
-  bool connect() { return cl->connect("localhost", "http"); }
+  bool connect() { return cl->connect("localhost", "http", period); }
 
   FakeAdaptor* adaptor() override
   { return cl ? static_cast<FakeAdaptor*>(cl->connection().get()) : nullptr; }
@@ -571,13 +580,13 @@ static bool run_op(Ctx& x, const Words& w)
       bool ok;
       if (vh::arg(w, "cont", "s") == "v")
       {
-        auto* c = new Cli<std::vector<char>>(x.io, x.owned);
+        auto* c = new Cli<std::vector<char>>(x.io, x.owned, w);
         x.cli.reset(c);
         ok = c->connect();
       }
       else
       {
-        auto* c = new Cli<std::string>(x.io, x.owned);
+        auto* c = new Cli<std::string>(x.io, x.owned, w);
         x.cli.reset(c);
         ok = c->connect();
       }
@@ -698,6 +707,13 @@ static bool run_op(Ctx& x, const Words& w)
     }
     else if (op == "poll")
     {
+      x.io.restart();
+      x.io.poll();
+    }
+    else if (op == "wait")
+    {
+      // wait <ms>: let real time pass (timers), then run what became ready
+      std::this_thread::sleep_for(std::chrono::milliseconds(std::stoul(w.at(1))));
       x.io.restart();
       x.io.poll();
     }
